@@ -858,6 +858,15 @@ func classify(c Case) (bool, []string) {
 				k = "A:redundant-parens"
 			case "call":
 				k = "A:call " + x.V
+				if f := funcs[x.V]; f != nil && f.sig {
+					k = "S:call-form"
+					for _, extra := range sigClasses(f, len(x.A)) {
+						if !seen[extra] {
+							seen[extra] = true
+							cls = append(cls, extra)
+						}
+					}
+				}
 			case "str":
 				k = "A:strlit-" + map[string]string{"d": "double", "s": "single"}[x.Q]
 				if strings.ContainsAny(x.V, " \t") && !seen["A:strlit-with-blanks"] {
@@ -915,6 +924,14 @@ func classify(c Case) (bool, []string) {
 		}
 		for _, s := range c.Stages {
 			f := funcs[s.F]
+			if f.sig {
+				add("S:pipe-form")
+				for _, extra := range sigClasses(f, len(s.A)+1) {
+					add(extra)
+				}
+				cur, _, _ = f.apply(append([]any{cur}, argValues(s.A, env)...))
+				continue
+			}
 			add("B:fn " + s.F)
 			args := []any{cur}
 			add(fmt.Sprintf("B:pair piped %T->%s", cur, f.params[0]))
@@ -987,4 +1004,31 @@ func classify(c Case) (bool, []string) {
 		return true, cls
 	}
 	return false, cls
+}
+
+func argValues(as []Arg, env map[string]any) []any {
+	var out []any
+	for _, a := range as {
+		out = append(out, argValue(a, env))
+	}
+	return out
+}
+
+// sigClasses labels a call of a signature-product function with nargs arguments.
+func sigClasses(f *fnSpec, nargs int) []string {
+	nfixed := len(f.params)
+	if f.variadic {
+		nfixed--
+	}
+	cls := []string{fmt.Sprintf("S:ctx=%v", f.ctx), fmt.Sprintf("S:fixed=%d", nfixed), fmt.Sprintf("S:variadic=%v", f.variadic), fmt.Sprintf("S:(T,error)=%v", f.retErr)}
+	if f.variadic {
+		cls = append(cls, fmt.Sprintf("S:variadic-args=%d", nargs-nfixed), "S:variadic-of-"+f.params[nfixed])
+		if f.ctx {
+			cls = append(cls, "S:ctx+variadic")
+		}
+	}
+	for i := 0; i < nfixed; i++ {
+		cls = append(cls, "S:fixed-"+f.params[i])
+	}
+	return cls
 }
